@@ -34,6 +34,8 @@ var alphabet = []fragment{
 	{"lower-kw", "select a from t"},
 	{"lower-long-kw", "refresh materialized view v1"},
 	{"mixed-long-kw", "With Recursive w1 As (Select Distinct a From t Intersect Select b From u)"},
+	{"kw-prefix-idents", "table1, key2, from3, select_4"},
+	{"kw-suffix-idents", "  x_from, a1where, _and, Or9 AS x"},
 	{"str-1line", "WHERE s = 'and  x '  AND f = 6"},
 	{"str-open", "WHERE s = 'x  select  "},
 	{"str-mid", "from  y  "},
